@@ -75,6 +75,7 @@ func init() {
 			{"enum-switch", "every switch over a module enumeration (named integer type with at least three constants) has a default clause or names every kind: no kind falls through a default-less switch silently", func(c *Ctx) { ruleEnumSwitch(c, "pkg/core", "pkg/core/dao", "pkg/core/storage") }},
 			{"loop-accumulator", "a boolean that summarises a loop (some element needs X / all elements satisfy Y) and is read after it is accumulated monotonically - set to a constant, combined with its previous value, assigned under a test of itself, or followed by leaving the loop - never overwritten by the value computed for the current element only", func(c *Ctx) { ruleLoopAccumulator(c, "pkg/core", "pkg/core/dao", "pkg/core/storage") }},
 			{"inactive-after-jump", "the state-sync module sets its stage to inactive only after the jump callback ran on the same path, or at the tabled exits where the ledger needs no jump (a restart between the last synchronised block and the jump is not one of them)", ruleInactiveAfterJump},
+			{"gc-keeps-startup-page", "the on-disk collector of header-hash pages bounds itself by the current header height, so that the last complete page, which HeaderHashes.init loads unconditionally, is never removed", ruleGCKeepsStartupPage},
 			{"stage-machine", "reset and jump are well-formed stage machines: unknown stage is an error; each stage ends by recording the label of the next clause as its last write and persists that layer before falling through; no value captured before the switch from a field a stage changes is used after that stage; the tail removes the marker; start-up resumes from it", ruleStageMachine},
 			{"cache-init", "a node reopened after a crash rebuilds every native cache field from storage and raises the in-memory dirty flags that have no storage record (votesChanged), so the blocks that follow give the same state roots as on a node that never stopped", ruleCacheInit},
 			{"resume-path", "no stage deletes data that Blockchain.init reads before it dispatches on the stage marker, and in-memory module state established inside one stage clause is also established on the common path (so a run resumed from a later stage has it)", ruleResumePath},
